@@ -21,6 +21,7 @@ LabMatches(lab, e) ==
    /\ lab.ev = e.ev
    /\ (lab.ev = "CheckCb" => (lab.idx = e.idx /\ lab.kind = e.kind))
    /\ (lab.ev = "RunCb"   => (lab.idx = e.idx /\ lab.kind = e.kind /\ lab.side = e.side /\ lab.scale = e.scale))
+   /\ (lab.ev = "RunSub"  => (lab.idx = e.idx /\ lab.what = e.what /\ lab.side = e.side /\ lab.scale = e.scale))
    /\ (lab.ev \in {"CheckEnd", "RunEnd"} =>
           (lab.outcome = e.outcome /\ (lab.err = "sequencing" => e.err = "sequencing")))
 
